@@ -84,6 +84,10 @@ pub struct RtProgram {
     /// anything; the driver catches the panic around `dispatch_all` and carries on
     #[serde(default)]
     pub panic_uid: Option<u32>,
+    /// C11: after the limited run has stopped, the driver adds one more event for the time the runtime reports and
+    /// dispatches again: the limit decides about that event like about any other
+    #[serde(default)]
+    pub resume_add: bool,
 }
 
 // ---------------------------------------------------------------- static expansion
@@ -470,6 +474,8 @@ impl<'a> Model<'a> {
 // ---------------------------------------------------------------- execution + oracles
 
 struct RealRun {
+    /// what the paused runtime reports as its time right after the driver caught the panic of a handler
+    clock_after_caught_panic: Option<u64>,
     handled: Vec<(usize, u64)>,
     past_attempts: Vec<(usize, u64, u64, bool)>,
     rejected: Vec<(usize, u64, u64)>,
@@ -482,6 +488,7 @@ struct RealRun {
 fn finish_real(res: Result<(App, SimTime, Profiler<Ev>), RuntimeError>) -> RealRun {
     match res {
         Ok((app, time, prof)) => RealRun {
+            clock_after_caught_panic: None,
             handled: app.log.handled,
             past_attempts: app.log.past_attempts,
             rejected: app.log.rejected,
@@ -491,6 +498,7 @@ fn finish_real(res: Result<(App, SimTime, Profiler<Ev>), RuntimeError>) -> RealR
             escaped_panic: None,
         },
         Err(e) => RealRun {
+            clock_after_caught_panic: None,
             handled: vec![],
             past_attempts: vec![],
             rejected: vec![],
@@ -510,20 +518,24 @@ fn run_plain(p: &RtProgram, with_limits: bool) -> RealRun {
         }
         // a handler panics: the driver catches the panic around the dispatch call and carries on
         rt.start();
+        let mut clock_after = None;
         for _ in 0..4 {
             let r = std::panic::catch_unwind(std::panic::AssertUnwindSafe(|| rt.dispatch_all()));
             if r.is_ok() {
                 break;
             }
             crate::clear_panic();
+            clock_after.get_or_insert(ns_of(rt.sim_time()));
         }
-        finish_real(rt.finish())
+        let mut rr = finish_real(rt.finish());
+        rr.clock_after_caught_panic = clock_after;
+        rr
     }));
     match r {
         Ok(r) => r,
         Err(pl) => {
             let (msg, loc) = crate::take_panic(pl);
-            RealRun { handled: vec![], past_attempts: vec![], rejected: vec![], end_time: 0, event_count: 0, remaining: vec![], escaped_panic: Some(format!("{msg} at {loc}")) }
+            RealRun { clock_after_caught_panic: None, handled: vec![], past_attempts: vec![], rejected: vec![], end_time: 0, event_count: 0, remaining: vec![], escaped_panic: Some(format!("{msg} at {loc}")) }
         }
     }
 }
@@ -609,6 +621,16 @@ fn check_c02(p: &RtProgram, insts: &[Inst], roots: &[usize], start: u64, real: &
                     .fact("before_first_dispatch", i64::from(real.handled.first().map_or(true, |h| h.1 >= *now) && *now == start))
                     .fact("nonzero_start", i64::from(start > 0)),
             );
+            return;
+        }
+    }
+    // a handler panicked and the driver caught the panic: the clock stays where the panicked event had put it
+    if let (Some(u), Some(c)) = (p.panic_uid, real.clock_after_caught_panic) {
+        info.probe("handler_panic_caught_by_the_driver");
+        let t = insts[u as usize % insts.len()].time;
+        if c != t {
+            info.violate(Violation::new("C02", if c < t { "clock-regress" } else { "clock-mismatch" }, format!(
+                "after the driver caught the panic of the handler of event {} (timestamp {t} ns) the runtime reports the time {c} ns", u as usize % insts.len())));
             return;
         }
     }
@@ -1106,6 +1128,43 @@ fn check_c11(p: &RtProgram, insts: &[Inst], roots: &[usize], start: u64, unlimit
             "remaining events differ from the undelivered ones: {} returned, {} expected; missing {lost:?}, unexpected {extra:?}", rem.len(), exp_rem.len())));
         return;
     }
+    // the run has stopped at its limit; the driver adds an event for the reported time and dispatches again
+    if p.resume_add && p.panic_uid.is_none() {
+        let r = std::panic::catch_unwind(std::panic::AssertUnwindSafe(|| {
+            let mut rt = make_runtime(p, true);
+            rt.start();
+            rt.dispatch_all();
+            let k1 = rt.app.log.handled.len();
+            let now = ns_of(rt.sim_time());
+            rt.add_event(Ev { uid: EXT_BASE }, st(now));
+            rt.dispatch_all();
+            let handled = rt.app.log.handled.clone();
+            let fin = finish_real(rt.finish());
+            (k1, now, handled, fin)
+        }));
+        match r {
+            Ok((k1, now, handled, fin)) => {
+                info.probe("event_added_after_the_limit_stopped_the_run");
+                if k1 == k {
+                    let admitted = !calls_stop(&p.limits, k as u64 + 1, now);
+                    let ran = handled.get(k).map_or(false, |h| h.0 == EXT_BASE);
+                    let extra = handled.len().saturating_sub(k + usize::from(ran));
+                    let in_remaining = fin.remaining.iter().any(|e| e.0 == EXT_BASE);
+                    if admitted != ran || extra != 0 || in_remaining == ran {
+                        info.violate(Violation::new("C11", "limit-resume", format!(
+                            "the limited run stopped after {k} events at {now} ns; an event added for {now} ns {} admitted by the limit, it {} dispatched ({} further events were dispatched, returned as remaining: {in_remaining})",
+                            if admitted { "is" } else { "is not" }, if ran { "was" } else { "was not" }, extra)));
+                        return;
+                    }
+                }
+            }
+            Err(pl) => {
+                let (msg, loc) = crate::take_panic(pl);
+                info.violate(Violation::new("C11", "panic", format!("adding an event after the limit stopped the run and dispatching again panicked: {msg} at {loc}")));
+                return;
+            }
+        }
+    }
     let total = unlimited.handled.len();
     let boundary = p.limits.iter().any(|c| match c {
         LimCall::MaxItr { n } => *n as usize == total,
@@ -1409,7 +1468,7 @@ pub fn generate(prop: &str, rng: &mut Rng, tier: Tier) -> RtProgram {
     // now and then the whole program is stretched: its time unit is not the nanosecond but up to 1000 s, which moves
     // start time, timestamps and bucket width beyond 2^64 ns (584 simulated years) without changing the program
     let scale = if rng.chance(1, 12) { *rng.pick(&[7u64, 1_000, 1_000_000, 1_000_000_007, 1_000_000_000_000, 1_000_000_000_000]) } else { 1 };
-    let mut prog = RtProgram { n, t_ns, scale, start_ns, specs, roots, max_instances, limits: vec![], steps: vec![], intruder: None, helper_reads: false, panic_uid: None };
+    let mut prog = RtProgram { n, t_ns, scale, start_ns, specs, roots, max_instances, limits: vec![], steps: vec![], intruder: None, helper_reads: false, panic_uid: None, resume_add: false };
     if prop == "C02" && rng.chance(1, 100) {
         prog.helper_reads = true;
     }
@@ -1417,8 +1476,11 @@ pub fn generate(prop: &str, rng: &mut Rng, tier: Tier) -> RtProgram {
         prog.intruder = Some((rng.below(64) as u32, if rng.chance(1, 2) { 0 } else { rng.below(t_ns.saturating_mul(1000).max(2)) }));
     }
 
-    if prop == "C11" && rng.chance(1, 10) {
+    if (prop == "C11" && rng.chance(1, 10)) || (prop == "C02" && rng.chance(1, 15)) {
         prog.panic_uid = Some(rng.below(1 << 16) as u32);
+    }
+    if prop == "C11" && rng.chance(1, 8) {
+        prog.resume_add = true;
     }
     if prop == "C11" {
         // limits are chosen knowing the timestamps of the program (static expansion)
